@@ -1,25 +1,39 @@
 /-
   C13 — homomorphic polynomial evaluation returns p(x) at the advertised depth and scale.
 
-  What is proved (about `Lattigo.Model.PolyEval`, layer (A), the algebra the driver also executes and
-  the harness ties to the decrypted output of the real evaluator):
+  What is proved about `Lattigo.Model.PolyEval`.
+  Layer (A), the algebra (any commutative ring; the driver runs it on Int and the harness ties it to the
+  decrypted output of the real evaluator):
     power basis (`powVal`)      = x^n            resp. T_n(x)       for every n
     `factorize`                 : p = q·X^n + r  resp. q·T_n + r    (deg r < n)
     Paterson–Stockmeyer `psRec` = p(x)           both bases, every coefficient list
     depth arithmetic            : coded consumption = ⌈log2(deg+1)⌉; the entry guard is one short on 2^k
     unmapped slots              : coefficient vectors vanish outside every mapping
-  What is NOT a theorem but a tie/probe on the real code (layer (B), the state machine): the ordered op
-  trace, operand levels and (bgv) scales of every call, output level = input − ⌈log2(deg+1)⌉,
-  output scale = requested (bgv exact, ckks 2^-30 relative), too few levels ⇒ error (never a panic).
-  Not covered: manually set `IsOdd`/`IsEven` flags, `EvaluateFromPowerBasis` with a pre-filled basis,
-  the scale-invariant (bfv) mode, composite circuits (sign/step/inverse/mod1).
+  Layer (B), the machine `run` (operands = level, scale mod t, ciphertext degree, slot values; the trace of
+  scheme-evaluator calls is tied line by line to the real code):
+    `depth_spec`                : output level = input − ⌈log2(deg+1)⌉ for every degree 1 ≤ d < 64, EVERY
+                                  coefficient list, mapping, Lazy, input level, scale, plaintext modulus
+                                  (`run_levels_simulated` + kernel evaluation of the level-only run);
+                                  `_bfv` (no level consumed), `_chebyshev` (d < 32), `_of_check` (any d
+                                  on which the closed check succeeds)
+    `target_scale`              : output scale = requested (exact scales mod prime t, units), d < 64;
+                                  `target_scale_of_level` and `sim_backpropagation_spec` for EVERY degree
+    `too_few_levels`, `constant_polynomial_spec`, `mulThenAdd_keeps_degree_two_part`
+  Witnesses (kernel evaluation of the machine, tied to the real code by the harness): `even_flag_refused`,
+  `flags_cleared_drop_constants` (user-set IsOdd/IsEven), `bfv_no_level_consumed`,
+  `bfv_refused_below_depth`, `prefilled_basis` (`EvaluateFromPowerBasis`).
+  What remains a tie/probe only: the ordered op trace itself, ckks scales (128-bit floats; probe 2^-30),
+  composite circuits (sign/step/inverse/mod1); open for all degrees: `∀ d, depthOK d lazy` (the level-only
+  run of degree d from ⌈log2(d+1)⌉ levels ends at level 0) — checked here for d < 64.
 
   The model follows the code with the fixes C13-1 (bgv `MulThenAdd` keeps the accumulator's degree and
   takes the smaller level; the ckks counterpart is C06-6/C06-7), C13-2 (constant polynomials) and
   C13-3 (guard of `bignum.Polynomial.Factorize`) applied: `mulThenAdd_keeps_degree_two_part`,
   `constant_polynomial_spec`, `factorize_guard_spec`.
 -/
-import Lattigo.Proofs.PolyEvalRun
+import Lattigo.Proofs.PolyEvalDepth
+import Lattigo.Proofs.PolyEvalScale
+import Mathlib.Tactic.NormNum.Prime
 
 namespace Lattigo.Props.C13
 open Lattigo.Model.PolyEval
@@ -90,6 +104,154 @@ theorem ps_spec_int (cheb : Bool) (logSplit : Nat) (x : Int) (fuel : Nat) (p : L
     output level is `input − ⌈log2(d+1)⌉` is the probe `level_doc`, degrees 1…63.) -/
 theorem depth_spec_partial (d : Nat) (hd : 1 ≤ d) : polynomialDepth d + 1 = Nat.clog 2 (d + 1) :=
   depth_arith d hd
+
+/-- **depth_spec** (machine level; monomial basis, standard mode, constructor flags): for every degree
+    `1 ≤ d < 64`, EVERY polynomial (vector) with `d + 1` coefficients, every mapping, `Lazy` or not, every
+    input level `L ≥ ⌈log2(d+1)⌉`, all scales and slot values, every plaintext modulus: the run returns an
+    operand at level `L − ⌈log2(d+1)⌉` — or, for `t ≠ 0` only, stops with an error (a scale check of the
+    exact-scale bgv instance; `depth_spec_level_only` excludes it for `t = 0`).
+    Bounded in `d` only through `depthOK_below_64` (kernel evaluation of the level-only run at the
+    minimal level); `depth_spec_of_check` is the same statement for every `d` on which that closed check
+    succeeds.  What is missing for all `d`: `∀ d ≥ 1, ∀ lazy, depthOK d lazy = true`. -/
+theorem depth_spec (env : Env) (hc : env.cheb = false) (hi : env.inv = false) (ho : env.odd = true)
+    (he : env.even = true) (d : Nat) (hd1 : 1 ≤ d) (hd : d < 64)
+    (polys : List (List Int)) (hp : (polys.headD []).length = d + 1) (mapping : Option (List (List Nat)))
+    (lazy : Bool) (L : Nat) (hL : Nat.clog 2 (d + 1) ≤ L) (inScale tScale : Nat) (x : List Int) :
+    (∃ tr o, run env polys mapping lazy L inScale tScale x = (tr, "ok", some o) ∧
+        o.level = (L : Int) - Nat.clog 2 (d + 1)) ∨
+    (¬ env.t = 0 ∧ ∃ tr er, run env polys mapping lazy L inScale tScale x = (tr, er, none)) := by
+  have hok : levelRunOK env.cheb env.inv d lazy (bitLen d) 0 = true := by
+    rw [hc, hi]
+    have := depthOK_below_64 (d - 1) (by omega) lazy
+    rwa [show d - 1 + 1 = d by omega] at this
+  have hb := bitLen_eq_clog d hd1
+  obtain ⟨kn, rfl⟩ : ∃ kn, L = bitLen d + kn := ⟨L - bitLen d, by omega⟩
+  rcases levels_of_levelRunOK env ho he d lazy (bitLen d) 0 hok polys hp mapping kn inScale tScale x with
+    ⟨tr, o, h1, h2⟩ | h
+  · left; exact ⟨tr, o, h1, by rw [h2, ← hb]; push_cast; ring⟩
+  · right; exact h
+
+/-- non-vacuity: degree 37 at level 6 = ⌈log2 38⌉ -/
+example : (1 : Nat) ≤ 37 ∧ 37 < 64 ∧ Nat.clog 2 (37 + 1) ≤ 6 ∧
+    (([List.replicate 38 (1 : Int)] : List (List Int)).headD []).length = 37 + 1 := by decide
+
+/-- **depth_spec_level_only**: on the level-only instance (`t = 0`, the ckks machine) the run always
+    succeeds — "enough levels ⇒ no error" -/
+theorem depth_spec_level_only (env : Env) (ht : env.t = 0) (hc : env.cheb = false) (hi : env.inv = false)
+    (ho : env.odd = true) (he : env.even = true) (d : Nat) (hd1 : 1 ≤ d) (hd : d < 64)
+    (polys : List (List Int)) (hp : (polys.headD []).length = d + 1) (mapping : Option (List (List Nat)))
+    (lazy : Bool) (L : Nat) (hL : Nat.clog 2 (d + 1) ≤ L) (inScale tScale : Nat) (x : List Int) :
+    ∃ tr o, run env polys mapping lazy L inScale tScale x = (tr, "ok", some o) ∧
+        o.level = (L : Int) - Nat.clog 2 (d + 1) := by
+  rcases depth_spec env hc hi ho he d hd1 hd polys hp mapping lazy L hL inScale tScale x with h | ⟨h, _⟩
+  · exact h
+  · exact absurd ht h
+
+/-- **depth_spec_of_check**: the general form — any basis, mode, degree, starting level on which the
+    closed level-only check succeeds: every run of that shape from `L0 + k` ends at `Lout + k` -/
+theorem depth_spec_of_check (env : Env) (ho : env.odd = true) (he : env.even = true) (d : Nat) (lazy : Bool)
+    (L0 : Nat) (Lout : Int) (hok : levelRunOK env.cheb env.inv d lazy L0 Lout = true)
+    (polys : List (List Int)) (hp : (polys.headD []).length = d + 1)
+    (mapping : Option (List (List Nat))) (kn : Nat) (inScale tScale : Nat) (x : List Int) :
+    (∃ tr o, run env polys mapping lazy (L0 + kn) inScale tScale x = (tr, "ok", some o) ∧ o.level = Lout + kn) ∨
+    (¬ env.t = 0 ∧ ∃ tr er, run env polys mapping lazy (L0 + kn) inScale tScale x = (tr, er, none)) :=
+  levels_of_levelRunOK env ho he d lazy L0 Lout hok polys hp mapping kn inScale tScale x
+
+/-- **depth_spec_bfv**: scale-invariant mode, `1 ≤ d < 64`: from any accepted input level
+    `L ≥ Depth() = ⌈log2 d⌉` the run ends at level `L` — no level is consumed -/
+theorem depth_spec_bfv (env : Env) (hc : env.cheb = false) (hi : env.inv = true) (ho : env.odd = true)
+    (he : env.even = true) (d : Nat) (hd1 : 1 ≤ d) (hd : d < 64)
+    (polys : List (List Int)) (hp : (polys.headD []).length = d + 1) (mapping : Option (List (List Nat)))
+    (lazy : Bool) (L : Nat) (hL : depthCheck d ≤ L) (inScale tScale : Nat) (x : List Int) :
+    (∃ tr o, run env polys mapping lazy L inScale tScale x = (tr, "ok", some o) ∧ o.level = (L : Int)) ∨
+    (¬ env.t = 0 ∧ ∃ tr er, run env polys mapping lazy L inScale tScale x = (tr, er, none)) := by
+  have hok : levelRunOK env.cheb env.inv d lazy (depthCheck d) (depthCheck d) = true := by
+    rw [hc, hi]
+    have := bfvOK_below_64 (d - 1) (by omega) lazy
+    rwa [show d - 1 + 1 = d by omega] at this
+  obtain ⟨kn, rfl⟩ : ∃ kn, L = depthCheck d + kn := ⟨L - depthCheck d, by omega⟩
+  rcases levels_of_levelRunOK env ho he d lazy _ _ hok polys hp mapping kn inScale tScale x with
+    ⟨tr, o, h1, h2⟩ | h
+  · left; exact ⟨tr, o, h1, by rw [h2]; push_cast; ring⟩
+  · right; exact h
+
+/-- **depth_spec_chebyshev**: Chebyshev basis, standard mode, `1 ≤ d < 32` -/
+theorem depth_spec_chebyshev (env : Env) (hc : env.cheb = true) (hi : env.inv = false) (ho : env.odd = true)
+    (he : env.even = true) (d : Nat) (hd1 : 1 ≤ d) (hd : d < 32)
+    (polys : List (List Int)) (hp : (polys.headD []).length = d + 1) (mapping : Option (List (List Nat)))
+    (lazy : Bool) (L : Nat) (hL : Nat.clog 2 (d + 1) ≤ L) (inScale tScale : Nat) (x : List Int) :
+    (∃ tr o, run env polys mapping lazy L inScale tScale x = (tr, "ok", some o) ∧
+        o.level = (L : Int) - Nat.clog 2 (d + 1)) ∨
+    (¬ env.t = 0 ∧ ∃ tr er, run env polys mapping lazy L inScale tScale x = (tr, er, none)) := by
+  have hok : levelRunOK env.cheb env.inv d lazy (bitLen d) 0 = true := by
+    rw [hc, hi]
+    have := chebOK_below_32 (d - 1) (by omega) lazy
+    rwa [show d - 1 + 1 = d by omega] at this
+  have hb := bitLen_eq_clog d hd1
+  obtain ⟨kn, rfl⟩ : ∃ kn, L = bitLen d + kn := ⟨L - bitLen d, by omega⟩
+  rcases levels_of_levelRunOK env ho he d lazy (bitLen d) 0 hok polys hp mapping kn inScale tScale x with
+    ⟨tr, o, h1, h2⟩ | h
+  · left; exact ⟨tr, o, h1, by rw [h2, ← hb]; push_cast; ring⟩
+  · right; exact h
+
+/-! ## the target scale (exact scales of the bgv instance) -/
+
+/-- **sim_backpropagation_spec** (every degree): the scales `recursePS` assigns backwards from the target
+    compose forwards to the target — with `L − T` levels of budget, the simulated evaluation of `p`
+    towards (level `T`, scale `out`) comes back at level `T` with scale `out·q_T` for a leading
+    sub-polynomial (the final `Rescale` is still to come) and `out` otherwise.  `t` prime, the `q_l`
+    and the scales of the simulated powers units modulo `t` (`SimInv`). -/
+theorem sim_backpropagation_spec (e : Env) [Fact e.t.Prime] (h64 : e.t < 2 ^ 64) (hinv : e.inv = false)
+    (L : Int) (hq : ∀ l : Int, 0 ≤ l → l ≤ L → UnitS e (qAt e l))
+    (pb : List (Nat × SimOpd)) (hpb : SimInv e L pb) (fuel s : Nat) (T : Int) (p : SubPoly) (out : Nat)
+    (subs : List SubPoly) (res : SimOpd) (hs : 1 ≤ s) (hT : 0 ≤ T)
+    (hbud : ((bitLen p.degree - 1 : Nat) : Int) ≤ L - T) (hout : out < e.t)
+    (h : recursePS e pb fuel s T p out = some (subs, res)) :
+    res.level = T ∧ res.scale = (if p.lead then mulS e out (qAt e T) else out) :=
+  recursePS_scale e h64 hinv L hq pb hpb fuel s T p out subs res hs hT hbud hout h
+
+/-- the simulated power basis `Evaluate` builds satisfies the hypothesis of `sim_backpropagation_spec` -/
+theorem sim_powers_units (e : Env) [Fact e.t.Prime] (h64 : e.t < 2 ^ 64) (hinv : e.inv = false)
+    (L : Int) (hq : ∀ l : Int, 0 ≤ l → l ≤ L → UnitS e (qAt e l)) (deg : Nat) (hdeg : 1 ≤ deg)
+    (sc : Nat) (hsc : UnitS e sc) (hL : (bitLen deg : Int) ≤ L) : SimInv e L (simPowers e deg L sc) :=
+  simInv_simPowers e h64 hinv L hq deg hdeg sc hsc hL
+
+/-- **target_scale_of_level** (every degree `d ≥ 1`): a successful run that ends at the documented level
+    `L − bits.Len64(d)` has exactly the requested scale -/
+theorem target_scale_of_level (e : Env) [Fact e.t.Prime] (h64 : e.t < 2 ^ 64) (hinv : e.inv = false)
+    (d : Nat) (hd1 : 1 ≤ d) (polys : List (List Int)) (hpl : (polys.headD []).length = d + 1)
+    (mapping : Option (List (List Nat))) (lazy : Bool) (L : Nat) (hL : bitLen d ≤ L)
+    (hq : ∀ l : Int, 0 ≤ l → l ≤ (L : Int) → UnitS e (qAt e l))
+    (is : Nat) (his : UnitS e is) (ts : Nat) (hts : ts < e.t) (x : List Int) (tr : List String) (o : Opd)
+    (hrun : run e polys mapping lazy L is ts x = (tr, "ok", some o))
+    (hlev : o.level = (L : Int) - bitLen d) : o.scale = ts :=
+  Lattigo.Model.PolyEval.target_scale_of_level e h64 hinv d hd1 polys hpl mapping lazy L hL hq is his ts hts x tr o hrun hlev
+
+/-- **target_scale**: in the exact-scale model of the bgv instance (`t` prime; the input scale and the
+    `q_l mod t`, `l ≤ L`, units modulo `t`; monomial basis, standard mode, constructor flags), for every
+    degree `1 ≤ d < 64`, every polynomial (vector), mapping, `Lazy`, input level `L ≥ ⌈log2(d+1)⌉`, input
+    scale and reduced target scale: whenever the evaluation succeeds, `out.scale = requested`.
+    (Bounded in `d` only through `depth_spec`; `target_scale_of_level` holds for every `d`.) -/
+theorem target_scale (e : Env) [Fact e.t.Prime] (h64 : e.t < 2 ^ 64) (hc : e.cheb = false) (hinv : e.inv = false)
+    (ho : e.odd = true) (he : e.even = true) (d : Nat) (hd1 : 1 ≤ d) (hd : d < 64)
+    (polys : List (List Int)) (hpl : (polys.headD []).length = d + 1)
+    (mapping : Option (List (List Nat))) (lazy : Bool) (L : Nat) (hL : Nat.clog 2 (d + 1) ≤ L)
+    (hq : ∀ l : Int, 0 ≤ l → l ≤ (L : Int) → UnitS e (qAt e l))
+    (is : Nat) (his : UnitS e is) (ts : Nat) (hts : ts < e.t) (x : List Int) (tr : List String) (o : Opd)
+    (hrun : run e polys mapping lazy L is ts x = (tr, "ok", some o)) : o.scale = ts := by
+  have hb := bitLen_eq_clog d hd1
+  refine Lattigo.Model.PolyEval.target_scale_of_level e h64 hinv d hd1 polys hpl mapping lazy L (by omega) hq is his
+    ts hts x tr o hrun ?_
+  rcases depth_spec e hc hinv ho he d hd1 hd polys hpl mapping lazy L hL is ts x with ⟨tr', o', h1, h2⟩ | ⟨_, tr', er, h1⟩
+  · rw [hrun] at h1
+    simp only [Prod.mk.injEq, Option.some.injEq] at h1
+    rw [h1.2.2, h2, hb]
+  · rw [hrun] at h1
+    simp at h1
+
+/-- non-vacuity: `t = 65537` is prime, `q_l mod t` of the harness's chain and the scale 9 are units -/
+example : Nat.Prime 65537 ∧ (705 : ZMod 65537) ≠ 0 ∧ (16321 : ZMod 65537) ≠ 0 ∧ (9 : ZMod 65537) ≠ 0 := by
+  refine ⟨by norm_num, by decide, by decide, by decide⟩
 
 /-- the entry guard `level < Depth()` (`⌈log2 d⌉`) is one level short exactly for `d = 2^k`: the run
     then ends with the final `Rescale` failing at level 0 (an error, after all the work) -/
@@ -220,6 +382,15 @@ theorem prefilled_basis :
 #print axioms ps_spec_int
 #print axioms depth_spec_partial
 #print axioms depth_guard_gap
+#print axioms depth_spec
+#print axioms depth_spec_level_only
+#print axioms depth_spec_of_check
+#print axioms depth_spec_bfv
+#print axioms depth_spec_chebyshev
+#print axioms sim_backpropagation_spec
+#print axioms sim_powers_units
+#print axioms target_scale_of_level
+#print axioms target_scale
 #print axioms too_few_levels
 #print axioms constant_polynomial_spec
 #print axioms mulThenAdd_keeps_degree_two_part
